@@ -210,6 +210,8 @@ def gen(rng, tier):
     add("hist/novalue", "hist S:l9:-:5 T X S:l9:0.z.4:5 T X S:l9:-:5 T E S:l9,s9:1.z.2:2 T X S:l9,s9:0.z.1:2 T E")
     for nm in ["Lamp [Kitchen]", "Lamp [1", "a*b?c", "back\\slash", "sp ace", "ü😀", "{x}", "]["]:
         add("hist/dirname", "hist dirname=%s S:l:-:5 PS:c1 T E X S:l:-:5 T E RM:c1:c1 T E X S:l:-:5 T E" % nm.encode().hex())
+    add("hist/remove-then-add", "hist S:l:-:5 PS:c1 T RA:c1:c2 T E X S:l:-:5 T E")
+    add("hist/remove-then-add", "hist S:b,s:-:2 PS:c1 AD:c1:c2 T RA:c1:c3 T RM:c2:c2 T RA:c3:c1 T E X S:b,s:-:2 T E")
     add("hist/bigid", "hist S:sx,l:-:2 T X S:sy,l:-:2 T X S:sy,l:-:2 T X S:sx,l:-:2 T E")
     add("hist/lowercase-id", "hist S:l:-:5 PS:c1 T E X LC S:l:-:5 T E RM:c1:c1 T X S:l:-:5 T E")
     add("hist/lowercase-id", "hist S:b,s:-:2 X LC S:b,s:-:2 PS:c1 T X S:b,s1:-:2 T E")
@@ -401,6 +403,16 @@ def oracle_hist(c, obs):
                 if p[1] not in ctrls:
                     return "a controller without a stored pairing changed the pairings"
                 (ctrls.add if p[0] == "AD" else ctrls.discard)(p[2])
+        elif p[0] == "RA":
+            o = nxt("RA")
+            if running and o is not None:
+                if p[1] not in ctrls and o.startswith("st2"):
+                    return "a controller without a stored pairing changed the pairings"
+                parts = o.split("/")
+                if parts[0] == "st2":
+                    ctrls.discard(p[1])
+                if len(parts) > 1 and parts[1] == "st2":
+                    ctrls.add(p[2])
         elif p[0] in ("D", "Z"):
             if running:
                 nxt(p[0])
